@@ -663,27 +663,28 @@ func c20System(sh c20Shape, rank int, st *c20Stats, col *c20Collector) mc.System
 // c20Shapes: (H, S, depth). Depth 0 entries are skipped. Tiny shapes get a depth large
 // enough for the BFS to close (frontier empties: every reachable table visited).
 func c20Shapes(thorough bool) []c20Shape {
-	var out []c20Shape
+	const closes = 60 // larger than the diameter: the BFS stops when the frontier empties
 	if !thorough {
 		return []c20Shape{
-			{1, 1, 30}, {2, 1, 30}, {2, 2, 30}, {3, 1, 30},
-			{3, 2, 3}, {4, 2, 3}, {5, 2, 3}, {4, 3, 3}, {6, 3, 2}, {7, 4, 2}, {12, 4, 2}, {12, 1, 2}, {3, 4, 3},
+			{1, 1, closes}, {1, 2, closes}, {2, 1, closes}, {2, 2, closes}, {3, 1, closes}, {2, 3, closes},
+			{3, 2, 5}, {4, 2, 4}, {5, 2, 4}, {4, 3, 4}, {3, 4, 4}, {6, 3, 3}, {7, 3, 3}, {7, 4, 3}, {9, 2, 3}, {12, 1, 3}, {12, 4, 2},
 		}
 	}
+	var out []c20Shape
 	for H := 1; H <= 12; H++ {
 		for S := 1; S <= 4; S++ {
 			d := 3
 			switch {
-			case H == 1, H == 2 && S <= 3, H == 3 && S == 1:
-				d = 40 // closes
-			case H <= 3:
-				d = 5
-			case H <= 5:
+			case H <= 2, H == 3 && S <= 2:
+				d = closes
+			case H == 3:
+				d = 6
+			case H == 5 && S == 4:
 				d = 4
+			case H <= 5:
+				d = 5
 			case H <= 8:
-				d = 3
-			default:
-				d = 3
+				d = 4
 			}
 			out = append(out, c20Shape{uint16(H), S, d})
 		}
